@@ -76,6 +76,10 @@ def is_inf(x):
     return isinstance(x, float) and math.isinf(x)
 
 
+def is_nan(x):
+    return isinstance(x, float) and math.isnan(x)
+
+
 def is_pinf(x):
     return isinstance(x, float) and math.isinf(x) and x > 0
 
@@ -345,6 +349,34 @@ class LazyImplies(ast.NodeTransformer):
         return node
 
 
+class FloatEq(ast.NodeTransformer):
+    """a == b / a != b -> feq(a, b) / not feq(a, b): contracts treat floats as reals (A1), so at run time two floating-point
+    numbers that differ only by rounding (relative 1e-12) are the same real number; everything else compares with Python's =="""
+
+    def visit_Compare(self, node):
+        self.generic_visit(node)
+        if len(node.ops) == 1 and isinstance(node.ops[0], (ast.Eq, ast.NotEq)):
+            call = ast.Call(func=ast.Name(id='feq', ctx=ast.Load()), args=[node.left, node.comparators[0]], keywords=[])
+            out = call if isinstance(node.ops[0], ast.Eq) else ast.UnaryOp(op=ast.Not(), operand=call)
+            return ast.copy_location(out, node)
+        return node
+
+
+def feq(a, b):
+    import numbers
+    if (isinstance(a, numbers.Number) and isinstance(b, numbers.Number) and not isinstance(a, bool) and not isinstance(b, bool)
+            and (isinstance(a, (float, complex)) or isinstance(b, (float, complex)) or type(a).__module__ == 'numpy' or type(b).__module__ == 'numpy')):
+        try:
+            if a == b:
+                return True
+            import cmath
+            return cmath.isclose(complex(a), complex(b), rel_tol=1e-12, abs_tol=0.0)
+        except (TypeError, ValueError, OverflowError):
+            return a == b
+    r = (a == b)
+    return r
+
+
 class _OldRewriter(ast.NodeTransformer):
     def __init__(self):
         self.olds = []
@@ -360,6 +392,11 @@ class _OldRewriter(ast.NodeTransformer):
 def namespace(extra=None):
     from . import api
     ns = {k: v for k, v in globals().items() if not k.startswith('_')}
+    try:
+        import numpy as _numpy
+        ns['np'] = _numpy
+    except ImportError:
+        pass
     for name, (_params, _body, fn) in api.SPEC_FUNCS.items():
         ns[name] = fn
     ns.update(extra or {})
@@ -371,6 +408,7 @@ def eval_clause(clause, env, old_env=None, extra=None):
     tree = ast.parse(clause.strip(), mode='eval')
     rw = _OldRewriter()
     tree = LazyImplies().visit(tree)
+    tree = FloatEq().visit(tree)
     tree = rw.visit(tree)
     ast.fix_missing_locations(tree)
     ns = namespace(extra)
